@@ -306,6 +306,12 @@ func init() {
 			switch r.intn(10) {
 			case 0, 1, 2, 3:
 				ptags := smallMap(r)
+				if r.chance(0.25) {
+					if ptags == nil {
+						ptags = map[string]string{}
+					}
+					ptags["resonate:invoke"] = pick(r, []string{"default", "poll://g/i"})
+				}
 				return &t_api.Request{Kind: t_api.CreateSchedule, CreateSchedule: &t_api.CreateScheduleRequest{
 					Id: id, Description: pick(r, []string{"", "d"}), Cron: pick(r, []string{"* * * * * *", "*/2 * * * * *", "@every 3s"}),
 					Tags: smallMap(r), PromiseId: pick(r, []string{"{{.id}}.{{.timestamp}}", "x.{{.timestamp}}", "fixed"}),
